@@ -46,6 +46,12 @@ type Obl struct {
 	// other obligations are left out of the query (dropping a hypothesis is
 	// sound for proving)
 	InstTag int
+	// Focus renders the query with only those quantified hypotheses whose
+	// trigger terms mention a symbol the goal depends on through definitions
+	// (two rounds); dropping hypotheses is sound for proving.
+	Focus bool
+	// FrameDetail: verdict text of a package-wide frame obligation
+	FrameDetail string
 }
 
 type namedTerm struct {
@@ -148,7 +154,7 @@ const preamble = `(declare-sort Str 0)
 (declare-const Str_empty Str)
 (assert (= (Str_len Str_empty) #x0000000000000000))
 (declare-const ZeroStrArr (Array (_ BitVec 64) Str))
-(assert (forall ((i (_ BitVec 64))) (! (= (select ZeroStrArr i) Str_empty) :pattern ((select ZeroStrArr i)))))
+(assert (forall ((i (_ BitVec 64))) (! (= (select ZeroStrArr i) Str_empty) :pattern ((select ZeroStrArr i))))) ;ZSA
 (declare-fun Verify ((_ BitVec 256) (_ BitVec 64) (_ BitVec 512)) Bool)
 (declare-fun SignF ((_ BitVec 64) (_ BitVec 256)) (_ BitVec 512))
 (declare-fun BytesId ((Array (_ BitVec 64) (_ BitVec 8)) (_ BitVec 64) (_ BitVec 64)) (_ BitVec 64))
@@ -378,6 +384,9 @@ func (o *Obl) render(withModel bool, tail string, seeds ...string) string {
 		}
 		all = kept
 	}
+	if o.Focus {
+		all = focusQuantified(all, append(append([]string{}, seeds...), tail))
+	}
 	if o.DropQuantified {
 		// candidate-counterexample mode: quantified hypotheses are dropped (the
 		// model is only believed if it replays on the real code)
@@ -397,7 +406,7 @@ func (o *Obl) render(withModel bool, tail string, seeds ...string) string {
 			if strings.HasPrefix(c, "(declare-const ") && lam[cmdName(c)] {
 				continue
 			}
-			if strings.HasPrefix(c, "(assert ") && strings.Contains(c, "(forall ") {
+			if strings.HasPrefix(c, "(assert ") && strings.Contains(c, "(forall ") && !strings.HasSuffix(c, " ;ZSA") {
 				continue
 			}
 			qf = append(qf, c)
@@ -447,4 +456,124 @@ func (o *Obl) ReachQuery() string {
 	b.WriteString("(set-logic " + pickLogic(body) + ")\n")
 	b.WriteString(body)
 	return b.String()
+}
+
+var patternRe = regexp.MustCompile(`:pattern \(`)
+
+// patternTokens returns the declared symbols that occur inside the :pattern
+// attributes of a command (all symbols of the command when it has none).
+func patternTokens(c string, names map[string]bool) []string {
+	var text strings.Builder
+	locs := patternRe.FindAllStringIndex(c, -1)
+	if len(locs) == 0 {
+		text.WriteString(c)
+	}
+	for _, l := range locs {
+		depth := 0
+		for i := l[1] - 1; i < len(c); i++ {
+			if c[i] == '(' {
+				depth++
+			} else if c[i] == ')' {
+				depth--
+				if depth == 0 {
+					text.WriteString(c[l[1]-1 : i+1])
+					text.WriteByte(' ')
+					break
+				}
+			}
+		}
+	}
+	var out []string
+	for _, t := range tokenRe.FindAllString(text.String(), -1) {
+		if names[t] && !strings.HasPrefix(t, "p_") {
+			out = append(out, t)
+		}
+	}
+	return out
+}
+
+func focusQuantified(cmds []string, seeds []string) []string {
+	names := map[string]bool{}
+	for _, c := range cmds {
+		if n := cmdName(c); n != "" {
+			names[n] = true
+		}
+	}
+	// definitional edges: define-fun N ... and declare-const N followed by (assert (= N t))
+	def := map[string][]string{}
+	for _, c := range cmds {
+		if strings.HasPrefix(c, "(define-fun ") {
+			n := cmdName(c)
+			for _, t := range allTokens(c) {
+				if names[t] && t != n {
+					def[n] = append(def[n], t)
+				}
+			}
+		} else if strings.HasPrefix(c, "(assert (= ") {
+			r := c[len("(assert (= "):]
+			i := strings.IndexAny(r, " )")
+			if i > 0 && names[r[:i]] {
+				n := r[:i]
+				for _, t := range allTokens(c) {
+					if names[t] && t != n {
+						def[n] = append(def[n], t)
+					}
+				}
+			}
+		}
+	}
+	dep := map[string]bool{}
+	var close func(t string)
+	close = func(t string) {
+		if dep[t] {
+			return
+		}
+		dep[t] = true
+		for _, u := range def[t] {
+			close(u)
+		}
+	}
+	for _, s := range seeds {
+		for _, t := range tokenRe.FindAllString(s, -1) {
+			if names[t] {
+				close(t)
+			}
+		}
+	}
+	isQ := func(c string) bool {
+		return strings.HasPrefix(c, "(assert ") && strings.Contains(c, "(forall ") && cmdName(c) == ""
+	}
+	keep := make([]bool, len(cmds))
+	for round := 0; round < 2; round++ {
+		var added []string
+		for i, c := range cmds {
+			if keep[i] || !isQ(c) {
+				continue
+			}
+			for _, t := range patternTokens(c, names) {
+				if dep[t] {
+					keep[i] = true
+					break
+				}
+			}
+			if keep[i] {
+				for _, t := range allTokens(c) {
+					if names[t] && !strings.HasPrefix(t, "p_") {
+						added = append(added, t)
+					}
+				}
+			}
+		}
+		for _, t := range added {
+			close(t)
+		}
+	}
+	var out []string
+	for i, c := range cmds {
+		if isQ(c) && !keep[i] {
+			continue
+		}
+		out = append(out, c)
+	}
+	return out
 }
